@@ -47,6 +47,23 @@ func NewClassModel(name string) *ClassModel {
 	return model
 }
 
+// Copy - a model of its own with the same name, constructor, properties and
+// methods (the tables are copied, their entries shared)
+func (cm *ClassModel) Copy() *ClassModel {
+	model := NewClassModel(cm.name)
+	model.constructor = cm.constructor
+	for name, prop := range cm.propList {
+		model.propList[name] = prop
+	}
+	for name, compProp := range cm.compPropList {
+		model.compPropList[name] = compProp
+	}
+	for name, method := range cm.methodList {
+		model.methodList[name] = method
+	}
+	return model
+}
+
 func (cm *ClassModel) String() string {
 	return fmt.Sprintf("‹类型·%s›", cm.name)
 }
